@@ -72,3 +72,31 @@ Proof.
     cbv iota. rewrite !Hid. repeat split; auto. intros ms0 C. discriminate.
 Qed.
 Print Assumptions file_object_mirrors.
+
+(* the object type the normaliser computes *)
+Lemma small_bit (m i : N) : (m < 2 ^ 19 -> 19 <= i -> N.testbit m i = false)%N.
+Proof.
+  intros Hm Hi. destruct (N.eq_dec m 0) as [->|Hz]; [apply N.bits_0|].
+  apply N.bits_above_log2. assert (N.log2 m < 19)%N by (apply N.log2_lt_pow2; lia). lia.
+Qed.
+(* every mode a PATH record can carry for a unix file (type bits 0170000 and below: under 2^19) is read as
+   Go's os.FileMode, whose type bits start at 2^19 - so it is classified "file" *)
+Theorem object_type_of_unix_mode mode dflt : (mode < 2 ^ 19)%N -> obj_type_of_mode mode dflt = L "file".
+Proof.
+  intros Hm. unfold obj_type_of_mode. rewrite (N.mod_small mode (2 ^ 32)) by (eapply N.lt_trans; [exact Hm|reflexivity]).
+  rewrite !(small_bit mode) by (try exact Hm; discriminate). reflexivity.
+Qed.
+Theorem file_object_type paths hint what op0 :
+  let p := selected paths hint in
+  let '(_, _, ot, bad) := set_file_object paths hint what op0 in
+  match fget (L "mode") p with
+  | None => ot = what /\ bad = false
+  | Some ms => match oct64 ms with
+               | None => ot = what /\ bad = true
+               | Some mode => ot = obj_type_of_mode mode what /\ bad = false
+               end
+  end.
+Proof.
+  cbv zeta. unfold set_file_object. destruct (fget (L "mode") (selected paths hint)) as [ms|]; [|split; reflexivity].
+  destruct (oct64 ms); split; reflexivity.
+Qed.
